@@ -1,4 +1,5 @@
 import SfVerif.Props.C03
+import SfVerif.Lemmas.Codec5
 /-! C02 — a completed output document is exactly the value that was written. -/
 namespace SfVerif.Props.C02
 open SfVerif SfVerif.Gen
@@ -37,5 +38,41 @@ theorem C02_finalize_only_when_complete (w : Writer) :
     (w.finalize).1 = WriteResult_Ok ↔ w.st = .done := by
   unfold Writer.finalize
   by_cases h : w.st = .done <;> simp [h]
+
+/-- **the writer emits exactly the tree's canonical encoding**: from any position where a value
+    may be written (the root, an array slot, an object value slot), the write calls that describe
+    `v` are all accepted, append `v.enc` and nothing else, and advance the position by one value
+    with the open-container stack as it was (`serOK`) -/
+theorem C02_writes_append_exactly_the_encoding (v : TVal) (w : Writer) (h : GoodW w) :
+    runAOps w v.ser = ({ out := w.out ++ v.enc.toArray, st := adv w.st, stack := w.stack }, WriteResult_Ok) :=
+  serOK v w h
+
+/-- **the eager decoder inverts the canonical encoding in any byte context**: with arbitrary bytes
+    before and after, decoding at the value's start yields the tree and stops at its end -/
+theorem C02_decode_encode (v : TVal) (pre post : List UInt8) (f : Nat) (h : wfV v = true)
+    (hf : v.depth < f) :
+    decodeAt (pre ++ v.enc ++ post).toArray f pre.length = some (v.doc, pre.length + v.enc.length) :=
+  decOK v pre post f h hf
+
+/-- **C02, positive direction, for every value tree**: writing `v` into a fresh output document
+    is accepted call by call, ends in the completed state, finalisation returns the bytes, and the
+    independent eager decoder reads those bytes back to exactly the tree `v` describes, with no
+    byte left over. Quantified over all trees of any size and depth whose integers fit the 64-bit
+    encoders and whose lengths fit the 32-bit headers (`wfV`). -/
+theorem C02_completed_output_is_the_tree (v : TVal) (h : wfV v = true) :
+    (runAOps {} v.ser).2 = WriteResult_Ok ∧ (runAOps {} v.ser).1.st = .done ∧
+    (runAOps {} v.ser).1.stack = [] ∧
+    (runAOps {} v.ser).1.finalize = (WriteResult_Ok, v.enc.toArray) ∧
+    decodeAll (runAOps {} v.ser).1.out = some v.doc := by
+  have hg : GoodW ({} : Writer) := ⟨trivial, fun _ => rfl⟩
+  rw [serOK v {} hg]
+  refine ⟨rfl, rfl, rfl, ?_, ?_⟩
+  · simp [Writer.finalize, adv]
+  · simpa using decodeAll_enc v h
+
+/-- the hypotheses are satisfiable by a non-trivial tree (nested map/array/option/negative int) -/
+example : wfV (.map [(#[0x61], .seq [.int (-5), .some (.str #[0x62, 0x63]), .none]),
+                     (#[], .tup [.f64 0x3ff0000000000000, .bool true, .map []])]) = true := by
+  simp [wfV, wfList, wfPairs]
 
 end SfVerif.Props.C02
